@@ -2,7 +2,7 @@
    Print Assumptions.  S, w, th range over ALL worlds (arbitrary effects of
    identifier reads, property get/set/delete, calls and operators on an
    arbitrary user state) and all values of this. *)
-From V Require Import Common.Base C05.Syntax C05.Sem C05.Lower C05.Frame C05.LowerProofs C05.SimLogic C05.Steps C05.Witness.
+From V Require Import Common.Base C05.Syntax C05.Sem C05.Lower C05.Frame C05.LowerProofs C05.SimLogic C05.Steps C05.Compose C05.Visit C05.Witness.
 
 (* An evaluation reads and writes only the temporaries that occur in the
    expression: fresh temporaries cannot be observed by, or interfere with, any
@@ -62,6 +62,32 @@ Theorem lower_exponent_assign_equiv :
               = observe (eval w th (EOpAsg APow tgt v) m s).
 Proof. exact lowerExpAsg_general. Qed.
 Print Assumptions lower_exponent_assign_equiv.
+
+(* WHOLE-VISITOR THEOREM (expressions without optional-chain links).
+   Lowering every sub-expression bottom-up, exactly as the model of
+   visitExprInOut does - nested ??, ||=, &&=, ??=, **=, ** inside member
+   accesses, calls, arguments, keys, assignment targets, delete, comma ... with
+   the folding of "literal ?? x" and the printer's (0, a.b)() wrapper - yields
+   an expression with the same events, final state and value/exception as the
+   source, for every world, feature set and start state.
+     src F C e   e is built from the parser's constructors, assignment targets
+                 are identifiers or member accesses, and every identifier that
+                 esbuild would duplicate instead of capturing (the left operand
+                 of a lowered ??, the object/key of a lowered compound
+                 assignment) belongs to C;
+     C           a set of constant bindings (exactly what F1-F3 violate);
+     binop_nonnull / del_nonnull   arithmetic and delete never yield
+                 null/undefined (used by esbuild's folding of "(a - b) ?? c").
+   Optional chains: per-step theorems below; composition over chains is not
+   proved yet (lower_sound_chainfree is PARTIAL in that sense). *)
+Theorem lower_sound_chainfree :
+  forall (S : Type) (w : world S) (th : val),
+    binop_nonnull S w -> del_nonnull S w ->
+    forall (F : feat) (C : Z -> Prop), (forall x, C x -> const_var S w x) ->
+    forall e, src F C e ->
+    forall m s, observe (eval w th (lower F e) m s) = observe (eval w th e m s).
+Proof. exact lower_sound. Qed.
+Print Assumptions lower_sound_chainfree.
 
 (* t?.name  =>  (_n = t) == null ? void 0 : _n.name *)
 Theorem lower_optional_chain_dot_equiv_partial :
